@@ -639,6 +639,7 @@ type loc struct {
 	ref  string // "" for scalars (globals, ghost variables)
 	all  bool   // whole heap
 	skip bool   // the location is reached through a nil pointer: nothing is written
+	idx  string // element-level location s[i]: the (absolute) position inside the backing array ref
 }
 
 // derefsNil: the location expression dereferences the literal nil (e.g. ctx.Hit with ctx == nil).
@@ -651,7 +652,7 @@ func (e *Env) derefsNil(x *CE) bool {
 		}
 		return e.derefsNil(x.Args[0])
 	case "call":
-		if x.Args[0].Op == "ident" && x.Args[0].Name == "allof" {
+		if x.Args[0].Op == "ident" && (x.Args[0].Name == "allof" || x.Args[0].Name == "allelems") {
 			return false
 		}
 		for _, a := range x.Args[1:] {
@@ -678,6 +679,18 @@ func (e *Env) locOf(x *CE) loc {
 func (e *Env) locOfInner(x *CE) loc {
 	g := e.g
 	switch x.Op {
+	case "index":
+		// s[i]: one element of the backing array of slice s
+		b := e.tr(x.Args[0], true)
+		i := e.tr(x.Args[1], true)
+		if b.Ty == nil {
+			fail("assigns %s: untyped base", x)
+		}
+		sl, ok := b.Ty.Underlying().(*types.Slice)
+		if !ok || b.So != "Slc" {
+			fail("assigns %s: base is not a slice", x)
+		}
+		return loc{heap: g.elemHeapOf(sl.Elem()), ref: "(ptr " + b.S + ")", idx: "(+ (off " + b.S + ") " + i.S + ")"}
 	case "field":
 		b := e.tr(x.Args[0], true)
 		if b.Ty == nil {
@@ -734,6 +747,15 @@ func (e *Env) locOfInner(x *CE) loc {
 			mt := m.Ty.Underlying().(*types.Map)
 			g.mapValHeap(mt)
 			return loc{heap: g.mapHasHeap(mt), ref: m.S}
+		case "allelems":
+			// allelems(T): every element of every []T
+			a := x.Args[1]
+			if a.Op == "ident" {
+				ty, _ := g.resolveType(a.Name)
+				if ty != nil {
+					return loc{heap: g.elemHeapOf(ty), all: true}
+				}
+			}
 		case "allof":
 			// allof(GhostField) / allof(T.f): the whole heap
 			a := x.Args[1]
@@ -823,6 +845,10 @@ func (f *frame) applyContract(fs *FuncSpec, actuals []CV, res *types.Tuple, st *
 			switch {
 			case l.all || l.ref == "":
 				cur = g.s.decl("hv."+h, hv.sort).S
+			case l.idx != "":
+				// one element: an explicit store, so that every other element keeps its value
+				inner := splitSort(splitSort(hv.sort)[2])
+				cur = "(store " + cur + " " + l.ref + " (store (select " + cur + " " + l.ref + ") " + l.idx + " " + g.s.decl("hv."+h, inner[2]).S + "))"
 			default:
 				parts := splitSort(hv.sort)
 				cur = "(store " + cur + " " + l.ref + " " + g.s.decl("hv."+h, parts[2]).S + ")"
